@@ -1646,6 +1646,14 @@ func (r *Raft) appendEntries(rpc RPC, a *AppendEntriesRequest) {
 				if entry.Index <= r.configurations.latestIndex {
 					r.setLatestConfiguration(r.configurations.committed, r.configurations.committedIndex)
 				}
+				// The suffix is gone whether or not the new entries can be
+				// stored below: the cached last entry is now the one before
+				// it, which this request has just matched.
+				if i > 0 {
+					r.setLastLog(a.Entries[i-1].Index, a.Entries[i-1].Term)
+				} else {
+					r.setLastLog(a.PrevLogEntry, a.PrevLogTerm)
+				}
 				newEntries = a.Entries[i:]
 				break
 			}
